@@ -1227,7 +1227,8 @@ class Value(metaclass=ABCMeta):
             If :py:`width` is negative.
         """
         offset = Value.cast(offset)
-        if type(offset) is Const and isinstance(width, int):
+        if (type(offset) is Const and isinstance(width, int) and
+                offset.value + width <= len(self)):
             return self[offset.value:offset.value + width]
         return Part(self, offset, width, stride=1, src_loc_at=1)
 
@@ -1261,7 +1262,8 @@ class Value(metaclass=ABCMeta):
             If :py:`width` is negative.
         """
         offset = Value.cast(offset)
-        if type(offset) is Const and isinstance(width, int):
+        if (type(offset) is Const and isinstance(width, int) and
+                (offset.value + 1) * width <= len(self)):
             return self[offset.value * width:(offset.value + 1) * width]
         return Part(self, offset, width, stride=width, src_loc_at=1)
 
